@@ -19,7 +19,9 @@
  *              identity without Endpoint object · x anonymous
  *     origin : message field originZone: `-` absent, `?` a name that is no zone, else zone index
  *     objzone: zone attribute of the target object: `-` unset, else zone index
- *     execzone: event::ExecutedCommand: zone of the endpoint stored in executions[uuid] (`-`: no such execution)
+ *     execzone: event::ExecutedCommand: zone of the endpoint stored in executions[uuid] (`-`: no such execution);
+ *              event::ExecuteCommand: the `endpoint` parameter names endpoint `b` of that zone, i.e. another node
+ *              (`-`: no such parameter resp. var=1: it names the receiver) => forwarding branch
  *     cmdep  : 1 = the checkable's command_endpoint is the endpoint the sender's identity names
  *     exists : 0 = the parameters name objects that do not exist (malformed stream)
  *     var    : 0 host / 1 service `s` of that host / 2 service `s<objzone>` of the zone-less host hU (the service's own
@@ -270,6 +272,14 @@ static void GenCases(const Forest& f, Rng& rng, std::vector<std::string>& out, i
 			for (int var = 0; var < 2; var++) {
 				if (!pick()) continue;
 				EmitM(g, "event::ExecuteCommand", p.first, p.second, "-", "-", 0, flip & 1, acmd, 1, var);
+				flip++;
+			}
+	/* command forwarding: the `endpoint` parameter names a node of every zone, from every sender relation */
+	for (auto& p : so)
+		for (auto& tz : g.zonesReal)
+			for (int acmd = 0; acmd < 2; acmd++) {
+				if (!pick()) continue;
+				EmitM(g, "event::ExecuteCommand", p.first, p.second, "-", tz, 0, flip & 1, acmd, 1, 0);
 				flip++;
 			}
 	/* configuration: accept_config on/off */
@@ -766,7 +776,15 @@ static Dictionary::Ptr Prepare(const Case& c)
 	} else if (m == "event::ExecuteCommand") {
 		p->Set("host", "vhost"); p->Set("command", "vcmd"); p->Set("command_type", "check_command");
 		p->Set("macros", Dictionary::Ptr(new Dictionary()));
-		if (c.var == 1) p->Set("endpoint", String(EpName(l_F.local, 'a')));
+		if (c.execzone != "-") {
+			/* forwarding branch: another node is the target.  Keep its two error-notice branches out of the way:
+			 * every endpoint can execute arbitrary commands (icinga::Hello cases overwrite the field) and the
+			 * host is one the target's zone may access. */
+			for (auto& kv : l_Endpoints) kv.second->SetCapabilities((uint_fast64_t)ApiCapabilities::ExecuteArbitraryCommand);
+			p->Set("endpoint", String(EpName(atoi(c.execzone.c_str()), 'b')));
+			p->Set("host", String(HostName(c.execzone)));
+			p->Set("source", String("src" + std::to_string(l_Tick))); p->Set("deadline", l_Now + 300);
+		} else if (c.var == 1) p->Set("endpoint", String(EpName(l_F.local, 'a')));
 	} else if (m == "event::SendNotifications") {
 		hostParams(); p->Set("type", 32); p->Set("author", "a"); p->Set("text", "t");
 	} else if (m == "event::NotificationSentUser") {
